@@ -1312,8 +1312,16 @@ struct TemplateCore {
             // Sort
             if (tag.Options > SizeT8{1}) {
                 if (tag.GroupLength == 0) {
-                    grouped_set = *loop_set;
-                    loop_set    = &grouped_set;
+                    // Copy the content: Sort() does not reach through a pointer-to-value.
+                    if (loop_set->IsObject()) {
+                        grouped_set = *(loop_set->GetObject());
+                    } else if (loop_set->IsArray()) {
+                        grouped_set = *(loop_set->GetArray());
+                    } else {
+                        grouped_set = *loop_set;
+                    }
+
+                    loop_set = &grouped_set;
                 }
 
                 grouped_set.Sort((tag.Options & LoopTagOptions::SortAscend) == LoopTagOptions::SortAscend);
